@@ -772,6 +772,105 @@ fn exhaustive(pr: &PropRun) -> crate::engine::runner::LaneReport {
     rep
 }
 
+/// Free-running stress: several threads adjust ONE gauge with increment/decrement (exact in f64: whole numbers far
+/// below 2^53) and one counter with increment while a flusher thread keeps flushing; the flush after the threads
+/// have finished must carry the exact net sum for the gauge ("each flush sends every gauge's most recent value"),
+/// and the counter deltas over all flushes must add up to the increments.
+fn stress_shared_gauge(pr: &PropRun) -> crate::engine::runner::LaneReport {
+    use crate::engine::runner::{LaneReport, Violation};
+    use std::sync::atomic::{AtomicBool, Ordering};
+    let start = std::time::Instant::now();
+    let mut rep = LaneReport::named("stress-shared-gauge");
+    let rounds = pr.cfg.cases(60, 3_000);
+    let c = Config { aggressive: false, prefix: None, globals: vec![], distributions: false, sampling: false, reservoir: 1, max_len: 8192, length_prefix: false };
+    let mut bad: Option<(String, String)> = None;
+    for round in 0..rounds {
+        let mut driver = mk_driver(&c);
+        let rec = driver.recorder();
+        let key_g = Key::from_name("sg");
+        let key_c = Key::from_name("sc");
+        let nthreads = 4usize;
+        let per = 4_000u64;
+        let start_at = (round % 5) as f64 * 100.0;
+        rec.register_gauge(&key_g, &META).set(start_at);
+        let stop = AtomicBool::new(false);
+        let mut counter_sent: u64 = 0;
+        let mut failure: Option<Fail> = None;
+        std::thread::scope(|s| {
+            let mut hs = vec![];
+            for t in 0..nthreads {
+                let (rec, key_g, key_c) = (&rec, &key_g, &key_c);
+                hs.push(s.spawn(move || {
+                    let g = rec.register_gauge(key_g, &META);
+                    let cn = rec.register_counter(key_c, &META);
+                    for i in 0..per {
+                        // threads 0,1 go up by 2 and down by 1; threads 2,3 up by 1 and down by 1: net +per per up-thread pair
+                        if t < 2 {
+                            g.increment(2.0);
+                            g.decrement(1.0);
+                        } else if i % 2 == 0 {
+                            g.increment(1.0);
+                        } else {
+                            g.decrement(1.0);
+                        }
+                        cn.increment(1);
+                    }
+                }));
+            }
+            // flush while they run
+            while hs.iter().any(|h| !h.is_finished()) && !stop.load(Ordering::Relaxed) {
+                match parse_flush(&c, &driver.flush()) {
+                    Ok(msgs) => {
+                        for m in of(&c, &msgs, "sc") {
+                            counter_sent += m.values.first().and_then(|v| v.parse::<u64>().ok()).unwrap_or(0);
+                        }
+                    }
+                    Err(e) => {
+                        failure = Some(e);
+                        stop.store(true, Ordering::Relaxed);
+                    }
+                }
+            }
+        });
+        let mut ctx = Ctx::default();
+        ctx.fingerprint = Some(round);
+        ctx.nontrivial("several-threads-adjust-one-gauge");
+        if round == 0 {
+            ctx.desc = Some(format!("{} threads x {} rounds of increment/decrement on one gauge and increment(1) on one counter, flushes running alongside; then a quiescent flush", nthreads, per));
+        }
+        rep.account(ctx);
+        if let Some(f) = failure {
+            bad = Some((f.sig.clone(), f.msg.clone()));
+            break;
+        }
+        let msgs = match parse_flush(&c, &driver.flush()) {
+            Ok(m) => m,
+            Err(e) => {
+                bad = Some((e.sig.clone(), e.msg.clone()));
+                break;
+            }
+        };
+        for m in of(&c, &msgs, "sc") {
+            counter_sent += m.values.first().and_then(|v| v.parse::<u64>().ok()).unwrap_or(0);
+        }
+        let want_gauge = start_at + 2.0 * per as f64;
+        let got_gauge: Vec<f64> = of(&c, &msgs, "sg").iter().filter_map(|m| m.values.first().and_then(|v| v.parse::<f64>().ok())).collect();
+        if got_gauge != vec![want_gauge] {
+            bad = Some(("gauge-adjustment-lost".into(), format!("round {}: gauge set to {}, then {} threads made {} increments/decrements each with a net sum of {}; the flush at quiescence carries {:?}, expected exactly [{}]", round, start_at, nthreads, per, 2.0 * per as f64, got_gauge, want_gauge)));
+            break;
+        }
+        if counter_sent != nthreads as u64 * per {
+            bad = Some(("counter-deltas-do-not-add-up".into(), format!("round {}: {} increments of 1 were made, the deltas of all flushes add up to {}", round, nthreads as u64 * per, counter_sent)));
+            break;
+        }
+    }
+    if let Some((sig, msg)) = bad {
+        rep.violations.push(Violation { lane: "stress-shared-gauge".into(), sig, msg, bytes: vec![], sched: vec![], decoded: "free-running threads (not deterministically replayable)".into() });
+    }
+    rep.wall_s = start.elapsed().as_secs_f64();
+    rep
+}
+
 pub fn run(cfg: &RunCfg, replay: Option<&str>) -> i32 {
     let mut pr = PropRun::new("C10", cfg, RULE);
     pr.register("sequential-model", &case_seq);
@@ -793,6 +892,8 @@ pub fn run(cfg: &RunCfg, replay: Option<&str>) -> i32 {
     let r = run_lane(&c, "C10", &Lane { name: "schedules", cases: c.cases(800_000, 20_000_000), max_len: 64, sched_len: 128, workers: 0, f: &case_sched });
     pr.push(r);
     let r = exhaustive(&pr);
+    pr.push(r);
+    let r = stress_shared_gauge(&pr);
     pr.push(r);
     let r = super::c10_e2e::lane(&pr);
     pr.push(r);
